@@ -21,8 +21,8 @@ KeysOf(fam) == CASE fam = "ann" -> <<"k1", "k2">>
                  [] fam = "dev" -> <<"/dev/d1", "/dev/d2">>
 NewVal(fam, k) == CASE fam = "ann" -> "new-" \o k
                     [] fam = "env" -> "new-" \o k
-                    [] fam = "mnt" -> "/s/new|bind|ro"
-                    [] fam = "dev" -> "c|7|9"
+                    [] fam = "mnt" -> "/s/new|bind|rbind,rprivate,ro,nosuid"
+                    [] fam = "dev" -> IF k = "/dev/d1" THEN "c|7|9" ELSE "b|8|16|432"    \* every device its own numbers
 OldVal(fam) == CASE fam = "ann" -> "old"
                  [] fam = "env" -> "old"
                  [] fam = "mnt" -> "/s/old|tmpfs|rw"
